@@ -1145,6 +1145,10 @@ class H2Connection:
         # must not leave some of its settings queued for the next ACK.
         for setting, value in new_settings.items():
             invalid = _validate_setting(setting, value)
+            if not invalid and not 0 <= value <= 0xFFFFFFFF:
+                # A SETTINGS frame carries every value as an unsigned 32-bit
+                # integer, whatever the setting.
+                invalid = ErrorCodes.PROTOCOL_ERROR
             if invalid:
                 raise InvalidSettingsValueError(
                     "Setting %d has invalid value %d" % (setting, value),
